@@ -132,7 +132,7 @@ def evaluate(ctx, case, res):
     inp = rc.case_summary(case)
     reply = res["reply"]
     if reply.get("runner_died") or (res.get("reply2") or {}).get("runner_died"):
-        ctx.broken.append(f"runner process died (rc {reply.get('rc')}) on case seed {case['seed']}")
+        ctx.broken.append(f"no answer from the rebuild ({reply.get('error')}; rc {reply.get('rc')}) on case seed {case['seed']}")
         return
     if case["profile"] == "resume":
         # run 1 into the empty destination was judged before the cut; now the destination after run 2
